@@ -386,7 +386,7 @@ func (i *Interpreter) directorBackendConsistentHash(dc *value.DirectorConfig) (*
 			binary.BigEndian.PutUint32(buf, dc.Seed)
 			hash := sha256.New() // TODO: consider to user hash/fnv for getting performance guarantee
 			hash.Write(buf)
-			hash.Write([]byte(v.Backend.Value.Name.Value))
+			hash.Write([]byte(v.Backend.String()))
 			hash.Write(fmt.Append([]byte{}, i))
 			h := hash.Sum(nil)
 			num := binary.BigEndian.Uint32(h[:8]) % maxNum
@@ -440,7 +440,12 @@ func (i *Interpreter) getBackendByHash(dc *value.DirectorConfig, hash []byte) (*
 			if !v.Backend.Healthy.Load() {
 				continue
 			}
-			bh := sha256.Sum256([]byte(v.Backend.Value.String()))
+			// The backend may be another director which does not have the declaration
+			name := v.Backend.String()
+			if v.Backend.Value != nil {
+				name = v.Backend.Value.String()
+			}
+			bh := sha256.Sum256([]byte(name))
 			b := binary.BigEndian.Uint64(bh[:8])
 			if b%(maxNum*10) >= num && b%(maxNum*10) < num+maxNum {
 				target = v.Backend
